@@ -42,7 +42,8 @@ def optz(x):
 def rhs_coq(r):
     if r['k'] == 'scalar':
         return '(RScalar %s)' % pyobs.pyv(pyobs.dec(r['v']))
-    return '(RSeq %s)' % L.lst(pyobs.pyv(pyobs.dec(v)) for v in r['vs'])
+    # k == 'col': the value was a column object; the runner recorded the cells it held when the operation started
+    return '(RSeq %s)' % L.lst(pyobs.pyv(pyobs.dec(v)) for v in r.get('vs', []))
 
 
 def addr_coq(a):
@@ -103,6 +104,8 @@ def op_coq(o):
         return '(OConcat %s %s)' % (L.nat(o['t']), L.nat(o['t2']))
     if k == 'setsorted':
         return '(OSetSorted %s %s)' % (L.nat(o['t']), L.boolean(o['b']))
+    if k == 'setcolfromslice':
+        return '(OSetColFromSlice %s %s %s %s)' % (L.nat(o['t']), L.string(o['name']), L.string(o['name2']), L.zs(o['l']))
     raise AssertionError(o)
 
 
@@ -161,6 +164,10 @@ def cells_coq(col, kind, problems):
                     problems.append('non-integer value %r in an IntColumn' % (x,))
                     out.append('(VInt 0)')
     return L.lst(out)
+
+
+EMPTY_LTABLE = ('{| l_fam := 0; l_rowid := {| ia := []; imeta := None; imax := None |}; l_names := []; l_cols := []; '
+                'l_sorted := true; l_dflt := KMixed |}')
 
 
 class Runner:
@@ -296,13 +303,24 @@ class Runner:
                 elif k == 'setcol':
                     r = o['rhs']
                     P[o['t']][o['name']] = pyobs.dec(r['v']) if r['k'] == 'scalar' else [pyobs.dec(v) for v in r['vs']]
+                elif k == 'setcolfromslice':
+                    dm = P[o['t']]
+                    dm[o['name']] = dm[o['name2']][list(o['l'])]
                 elif k == 'setcolfromcol':
                     P[o['t']][o['name']] = P[o['t2']][o['name2']]
                 elif k == 'setcell':
                     r = o['rhs']
-                    v = pyobs.dec(r['v']) if r['k'] == 'scalar' else [pyobs.dec(x) for x in r['vs']]
                     a = o['addr']
                     dm = P[o['t']]
+                    if r['k'] == 'col':
+                        # the value is a live column object (possibly the target itself or an alias of it); what the
+                        # property promises is the assignment of the cells it holds now, in order
+                        v = P[r['t2']][r['name2']]
+                        r['vs'] = [pyobs.enc(x) for x in list(v)]
+                        if r.get('as') == 'array':
+                            v = v._seq if isinstance(v._seq, np.ndarray) else list(v._seq)
+                    else:
+                        v = pyobs.dec(r['v']) if r['k'] == 'scalar' else [pyobs.dec(x) for x in r['vs']]
                     if a['k'] == 'row':
                         setattr(dm[a['i']], o['name'], v)
                     else:
@@ -344,7 +362,20 @@ class Runner:
                     else:
                         del P[o['t']][tuple(l)]
                 elif k == 'delcol':
-                    del P[o['t']][o['name']]
+                    how = o.get('how', 'item')
+                    dm = P[o['t']]
+                    if how == 'attr':
+                        try:
+                            delattr(dm, o['name'])
+                        except AttributeError as e:
+                            # del dm.<missing> is an AttributeError by Python's protocol; the property's ValueError is
+                            # about del dm[<missing name>]
+                            raise ValueError(str(e))
+                    elif how == 'obj' and o['name'] in dm._cols and \
+                            sum(1 for c in dm._cols.values() if c is dm._cols[o['name']]) == 1:
+                        del dm[dm._cols[o['name']]]       # by object (only when the object has one name)
+                    else:
+                        del dm[o['name']]
                 elif k == 'rename':
                     P[o['t']].rename(o['old'], o['new'])
                 elif k == 'concat':
@@ -386,13 +417,20 @@ def run_history(ops_list, seed=0):
         r.audit(before, pr)
         dumps = []
         for i, dm in enumerate(r.pool):
-            lit = r.dump_table(dm, pr)
             if i >= len(r.last):
                 r.last.append(None)
+            try:
+                lit = r.dump_table(dm, pr)
+            except Exception as e:      # noqa: BLE001  (an object graph the dumper cannot even walk)
+                pr.append('the object graph of table %d cannot be dumped: %r' % (i, e))
+                lit = r.last[i] or EMPTY_LTABLE
             if r.last[i] != lit:
                 r.last[i] = lit
                 dumps.append('(%s, %s)' % (L.nat(i), lit))
-                r.probes(dm, pr)
+                try:
+                    r.probes(dm, pr)
+                except Exception as e:      # noqa: BLE001  (a public read raised)
+                    pr.append('reading table %d through its public interface raised %r' % (i, e))
         for p in pr:
             problems.append('step %d (%s): %s' % (si, o['op'], p))
         steps.append('{| so_op := %s; so_out := %s; so_dumps := %s; so_pyok := %s |}' % (
